@@ -297,7 +297,11 @@ impl Monitor for C17 {
                 let mut shift = 0u64;
                 if rng.chance(1, 2) && !files.is_empty() {
                     // renumber the valid files with gaps, preserving their order
-                    let mut newnum = min + rng.range(1, 50);
+                    // mostly small shifts; sometimes numbers with 20 significant digits
+                    let mut newnum = if rng.chance(1, 6) { 10_000_000_000_000_000_000u64 + rng.below(1 << 40) } else { min + rng.range(1, 50) };
+                    if newnum <= min {
+                        newnum = min + 1;
+                    }
                     shift = newnum;
                     let mut plan = Vec::new();
                     for (n, _) in &files {
@@ -318,9 +322,12 @@ impl Monitor for C17 {
                 if below > 0 {
                     let nm = format!("wal-{:020}", rng.below(below));
                     if !foreign_names.contains(&nm) && !dir.join(&nm).exists() {
-                        let ok = match rng.below(3) {
-                            0 => std::fs::create_dir(dir.join(&nm)).is_ok(),
-                            1 => std::os::unix::fs::symlink("lock", dir.join(&nm)).is_ok(),
+                        // a symlink to a LIVE WAL file: `metadata()` would call it a regular file
+                        let live = list_wal_files(&dir).first().map(|f| format!("wal-{:020}", f.0));
+                        let ok = match (rng.below(4), live) {
+                            (0, _) => std::fs::create_dir(dir.join(&nm)).is_ok(),
+                            (1, _) => std::os::unix::fs::symlink("lock", dir.join(&nm)).is_ok(),
+                            (2, Some(target)) => std::os::unix::fs::symlink(target, dir.join(&nm)).is_ok(),
                             _ => std::os::unix::fs::symlink("/nonexistent/x", dir.join(&nm)).is_ok(),
                         };
                         if ok {
